@@ -8,7 +8,7 @@ sys.path.insert(0, _here)
 
 # properties whose checks are registered in MANIFEST.json (a model may already serve a property
 # that is not yet claimed because another model it needs is still missing)
-CLAIMED = ["C07"]
+CLAIMED = ["C01", "C02", "C05", "C07", "C12", "C16"]
 
 MODELS, PROPS = {}, {}
 for fn in sorted(os.listdir(_here)):
